@@ -143,6 +143,20 @@ def c15_4(ctx):
             removals.append(c)
         elif isinstance(c, ast.AugAssign) and isinstance(c.op, (ast.Sub, ast.BitAnd)) and norm(c.target) in names:
             removals.append(ast.Call(ast.Attribute(c.target, "difference_update", ast.Load()), [c.value], [], lineno=c.lineno, col_offset=c.col_offset))
+    # the work set handed to another method of the finder (a helper that walks up from one hash): what that method removes from
+    # its parameter, it removes from the work set
+    for c in list(ast.walk(body)):
+        if isinstance(c, ast.Call) and isinstance(c.func, ast.Attribute) and norm(c.func.value) == "self" and f.cls is not None:
+            callee = ctx.p.lookup_method(f.cls, c.func.attr)
+            if callee is None or callee is f:
+                continue
+            cps = [a.arg for a in callee.node.args.args][1:]
+            for i, a in enumerate(c.args):
+                if isinstance(a, ast.Name) and a.id in names and i < len(cps):
+                    for c2 in ast.walk(callee.node):
+                        if isinstance(c2, ast.Call) and isinstance(c2.func, ast.Attribute) and norm(c2.func.value) == cps[i] and c2.func.attr in ("pop", "discard", "remove", "difference_update", "clear", "intersection_update"):
+                            if c2.func.attr != "pop":
+                                removals.append(ast.Call(ast.Attribute(ast.Name(ws, ast.Load()), c2.func.attr, ast.Load()), c2.args, [], lineno=c2.lineno, col_offset=c2.col_offset))
     for c in removals:
         ctx.check(c.func.attr == "pop", "work-set-removal:%s" % c.func.attr, ctx.where(f, c),
                   "meld_new_hashes removes an element from the work set with `%s`; elements taken by pop() become the bottom of a path and have descendents_by_top consulted for them, an element removed any other way is never looked up there, "
